@@ -397,9 +397,20 @@ def value_violations(tree, label=""):
     sq = tuple(i for i, ix in enumerate(tree.output) if ix in proj)
     for desc, kw in (("default", {}),
                      ("einsum-dfs", {"prefer_einsum": True, "order": "dfs"}),
-                     ("autoray", {"implementation": "autoray"})):
+                     ("autoray", {"implementation": "autoray"}),
+                     ("strip-exponent", {"strip_exponent": True,
+                                         "check_zero": True})):
+        if desc == "strip-exponent" and not np.any(np.asarray(want) != 0):
+            continue  # identically zero result: outside exponent stripping
         try:
-            got = np.asarray(tree.contract(arrays, **kw))
+            got = tree.contract(arrays, **kw)
+            if desc == "strip-exponent":
+                m, e = got
+                with np.errstate(all="ignore"):
+                    got = np.asarray(m, dtype="float64") * 10.0 ** float(e) \
+                        if np.isfinite(float(e)) else \
+                        np.zeros(np.shape(m))
+            got = np.asarray(got)
         except Exception as e:
             out.append((label + "contract-raises:" + desc, repr(e)[:200]))
             continue
@@ -411,6 +422,17 @@ def value_violations(tree, label=""):
                 continue
             got = got.reshape([d for i, d in enumerate(got.shape)
                                if i not in sq])
+        if desc == "strip-exponent":
+            # mantissa * 10**exponent is inexact in the last bits: the data
+            # are small integers, so rounding recovers the exact value
+            w = np.asarray(want, dtype="float64")
+            if got.shape != w.shape or not np.all(
+                    np.abs(got - w) <= 1e-6 * np.maximum(1.0, np.abs(w))):
+                out.append((label + "value:" + desc,
+                            ref.describe_mismatch(
+                                np.rint(got) if got.shape == w.shape and
+                                np.all(np.isfinite(got)) else got, want)))
+            continue
         if not ref.exact_equal(got, want):
             out.append((label + "value:" + desc,
                         ref.describe_mismatch(got, want)))
